@@ -384,6 +384,9 @@ Proof. intros IC I H. invA_auto s IC I H. Qed.
 Lemma InvA_LFail s m s' : InvC s -> InvA' s -> step s (LFail m) = Some s' -> InvA' s'.
 Proof. intros IC I H. invA_auto s IC I H. Qed.
 
+Lemma InvA_LSubEnd s h s' : InvC s -> InvA' s -> step s (LSubEnd h) = Some s' -> InvA' s'.
+Proof. intros IC I H. invA_auto s IC I H. Qed.
+
 Lemma InvA'_init_u n u hon f5 f6 f12 f16 : InvA' (init_u n u hon f5 f6 f12 f16).
 Proof.
   constructor; [apply InvA_init_u|]. simpl. intros h m. destruct (Nat.ltb h n); discriminate.
@@ -398,6 +401,7 @@ Proof.
   - eapply InvA_LEnvCancel; eassumption.
   - eapply InvA_LEmit; eassumption.
   - eapply InvA_LChanClose; eassumption.
+  - eapply InvA_LSubEnd; eassumption.
   - eapply InvA_LFinish; eassumption.
   - eapply InvA_LFail; eassumption.
   - eapply InvA_LTimeout; eassumption.
